@@ -18,7 +18,8 @@ SPEC = {
         ("label-genericity(non-emitting link)", 'ne_end', r'^ne-end:one-emitting'),
         ("renaming / re-listing cannot change which projections a state carries: every call of next() gets segment objects of its own (_match_states)", 'match_states', '^fresh:'),
         ("segment objects per call (non-emitting step)", 'ne_inner', '^fresh:'),
-        ("segment objects per call (link to the next observation)", 'ne_end', '^fresh:')],
+        ("segment objects per call (link to the next observation)", 'ne_end', '^fresh:'),
+        ("K-update(the merged entry is the winner in EVERY slot: nothing of the first-listed candidate survives a better one)", 'update', r'^update:slot-complete')],
     'bounded': [
         ('transformations', suites.case_C16, 1500, 200000, RULE + '; ' + 'non-trivial = best path has >= 2 states; transformations: pure renaming, reorder, axis swap, scale 2^k for k in {-8,-3,-1,1,3,10,20}, translation by representable offsets (no pruning)', '')],
 }
